@@ -224,6 +224,13 @@ func (i *Interp) conv(tdst, tsrc types.Type, x value) value {
 	case *types.Slice:
 		// string -> []byte / []rune
 		if s, ok := x.(Str); ok {
+			if s.opaque && s.doc != nil {
+				r := make([]value, s.doc.n)
+				for k := range r {
+					r[k] = docByte{s.doc, k}
+				}
+				return r
+			}
 			if s.opaque {
 				return poison{"opaque string -> slice"}
 			}
@@ -261,6 +268,9 @@ func (i *Interp) conv(tdst, tsrc types.Type, x value) value {
 					elemKind = sl.Elem().Underlying().(*types.Basic).Kind()
 				}
 				if elemKind == types.Uint8 {
+					if d := docOfBytes(x); d != nil {
+						return Str{opaque: true, doc: d}
+					}
 					ts := make([]*smt.Term, len(x))
 					for k, e := range x {
 						t, ok := e.(*smt.Term)
